@@ -80,15 +80,27 @@ pub struct ChunkState {
     pub bound_exceeded: bool,
     /// if set: reads at/after this absolute offset fail with this error kind instead of EOF
     pub fail_at_end: Option<io::ErrorKind>,
+    /// if set: from this absolute offset on, every read is preceded by one transient `WouldBlock`
+    /// error (blocking reader) - what a socket with a read timeout does
+    pub interrupt_from: Option<usize>,
+    interrupted_at: Option<usize>,
+    pub interrupts: usize,
 }
 
 impl ChunkState {
     pub fn new(data: Vec<u8>, cuts: Vec<usize>) -> Self {
         let read_limit = data.len() + cuts.len() + 64;
-        ChunkState { data, pos: 0, cuts, reads: 0, read_limit, bound_exceeded: false, fail_at_end: None }
+        ChunkState { data, pos: 0, cuts, reads: 0, read_limit, bound_exceeded: false, fail_at_end: None, interrupt_from: None, interrupted_at: None, interrupts: 0 }
     }
 
     fn next(&mut self, want: usize) -> io::Result<&[u8]> {
+        if let Some(from) = self.interrupt_from {
+            if self.pos >= from && self.interrupted_at != Some(self.pos) {
+                self.interrupted_at = Some(self.pos);
+                self.interrupts += 1;
+                return Err(io::Error::new(io::ErrorKind::WouldBlock, "harness: transient read timeout"));
+            }
+        }
         self.reads += 1;
         if self.reads > self.read_limit {
             self.bound_exceeded = true;
